@@ -28,14 +28,21 @@ TIERS = {"quick": dict(shards=8, examples=400, alt_ppqn=[480], alt_shards=2),
 @st.composite
 def _case(draw):
     k = draw(st.integers(1, 4))
-    ts_ticks = draw(st.lists(st.one_of(st.just(0), st.integers(0, 600)), max_size=4, unique=True))
-    ks_ticks = draw(st.lists(st.one_of(st.just(0), st.integers(0, 600)), max_size=4, unique=True))
+    ts_ticks = draw(st.lists(st.one_of(st.just(0), st.integers(0, 600)), max_size=5, unique=True))
+    ks_ticks = draw(st.lists(st.one_of(st.just(0), st.integers(0, 600)), max_size=5, unique=True))
     metas = [[] for _ in range(k)]
+    # values come from a small per-case pool in half of the cases, so that A, B, A patterns (a value that returns after a change,
+    # possibly on another sequence) are common
+    sig_s = st.one_of(st.tuples(st.integers(1, 16), st.sampled_from(gens.DENOMS)), st.sampled_from([(8, 8), (4, 4), (2, 2)]))
+    key_s = st.sampled_from(gens.KEYS)
+    if draw(st.booleans()):
+        sig_s = st.sampled_from(draw(st.lists(sig_s, min_size=2, max_size=2)))
+        key_s = st.sampled_from(draw(st.lists(key_s, min_size=2, max_size=2)))
     for t in ts_ticks:
-        sig = draw(st.one_of(st.tuples(st.integers(1, 16), st.sampled_from(gens.DENOMS)), st.sampled_from([(8, 8), (4, 4), (2, 2)])))
+        sig = draw(sig_s)
         metas[draw(st.integers(0, k - 1))].append(["ts", t, sig[0], sig[1]])
     for t in ks_ticks:
-        metas[draw(st.integers(0, k - 1))].append(["ks", t, draw(st.sampled_from(gens.KEYS))])
+        metas[draw(st.integers(0, k - 1))].append(["ks", t, draw(key_s)])
     seqs = []
     for i in range(k):
         ch = draw(st.integers(0, 15))
